@@ -16,6 +16,7 @@ import (
 
 	presignc "github.com/Cloud-Foundations/golib/pkg/awsutil/presignauth/caller"
 	"github.com/Cloud-Foundations/golib/pkg/log/nulllogger"
+	"github.com/Cloud-Foundations/keymaster/lib/certgen"
 
 	"github.com/aws/aws-sdk-go-v2/aws/arn"
 )
@@ -158,6 +159,18 @@ func (i *Issuer) requestHandler(w http.ResponseWriter,
 	if err != nil {
 		i.params.Logger.Println(err)
 		i.params.FailureWriter(w, r, "invalid DER", http.StatusBadRequest)
+		return nil
+	}
+	strongKey, err := certgen.ValidatePublicKeyStrength(pub)
+	if err != nil {
+		i.params.Logger.Println(err)
+		i.params.FailureWriter(w, r, "error validating key",
+			http.StatusInternalServerError)
+		return nil
+	}
+	if !strongKey {
+		i.params.Logger.Println("public key too weak or of unsupported type")
+		i.params.FailureWriter(w, r, "key too weak", http.StatusBadRequest)
 		return nil
 	}
 	template, certDER, err := i.generateRoleCert(pub, callerArn)
